@@ -535,7 +535,9 @@ def mon_merged(scn, run):
     tid = master_tid(run)
     calls = [e for e in tr.of("t-call") if e["tid"] == tid]
     ups = tr.of("update")
-    raises = [e for e in tr.of("raise") if e.get("ok")]
+    # an interrupt has "asked" once its message has been handed to the scheduler (under a delaying bus that is later
+    # than the moment the component raised it)
+    raises = [{"comp": e["msg"]["source"], "n": e["n"]} for e in tr.of("deliver") if e["msg"].get("m") == "Interrupt"]
     top_devs = {c["name"] for c in scn["components"] if c["kind"] == "dev"}
     for a, b in zip(calls, calls[1:]):
         if a["time"] != b["time"] or calls.index(a) == 0:
@@ -549,7 +551,7 @@ def mon_merged(scn, run):
             reqs = [u for u in ups if u["comp"] == r and u["n"] < a["n"] and u.get("call_at") is not None]
             asked_cb = bool(reqs) and reqs[-1]["call_at"] == b["time"] and \
                 not any(reqs[-1]["n"] < c2["n"] < a["n"] and r in c2["roots"] for c2 in calls)
-            asked_int = any(x["comp"] == r and x["step"] <= a["step"] - 2 for x in raises) and not any(c2["n"] < a["n"] and r in c2["roots"] and c2["n"] > max([x["n"] for x in raises if x["comp"] == r and x["n"] < a["n"]], default=0) for c2 in calls)
+            asked_int = any(x["comp"] == r and x["n"] < a["n"] for x in raises) and not any(c2["n"] < a["n"] and r in c2["roots"] and c2["n"] > max([x["n"] for x in raises if x["comp"] == r and x["n"] < a["n"]], default=0) for c2 in calls)
             if asked_cb or asked_int:
                 out.append(V("same-time-not-merged", f"two master ticks @{a['time']}: roots {a['roots']} then {b['roots']}, although {r} was already due when the first one started", comp=r))
     return out
